@@ -28,6 +28,7 @@ import os
 from . import common
 from . import c07_app as app
 from . import c07_gen as gen
+from . import c07_cov as covmod
 
 PROPERTY = 'C07'
 LEAN_TARGETS = ['CpProofs.C07', 'drv_c07']
@@ -481,7 +482,18 @@ def _worker(args):
                             'pre_status': obs.get('pre_status')}))
     finally:
         app.teardown()
-    return out
+    return out, _worker_hits()
+
+
+def _worker_hits():
+    cov = covmod.current()
+    return cov.hits() if cov is not None else []
+
+
+def _merge_hits(hits):
+    cov = covmod.current()
+    if cov is not None:
+        cov.add_hits(hits)
 
 
 def request_stream(ctx, n):
@@ -494,7 +506,8 @@ def request_stream(ctx, n):
     chunks = 64
     per = n // chunks
     seeds = [ctx.rng.randrange(1 << 62) for _ in range(chunks)]
-    for res in common.parallel_map(_worker, [(s, per, None) for s in seeds]):
+    for res, hits in common.parallel_map(_worker, [(s, per, None) for s in seeds]):
+        _merge_hits(hits)
         for c, obs in res:
             # keep only a digest of the big stream in memory: failures + counters
             check_request(ctx, c, obs)
@@ -513,7 +526,8 @@ def cross_cases(rng, quick):
         cs += gen.encword_cases(rng)
     cs += gen.cache_cases(rng, 250 if quick else 4000)
     cs += gen.reflect_cases(rng, 2 if quick else 36)
-    return cs
+    cs += gen.dispatch_cases(rng, 400 if quick else 6000)
+    return gen.debug_twins(rng, cs)
 
 
 def _cross_worker(cases):
@@ -527,7 +541,7 @@ def _cross_worker(cases):
                         'pre_status': obs.get('pre_status')})
     finally:
         app.teardown()
-    return out
+    return out, _worker_hits()
 
 
 def cross_stream(ctx):
@@ -538,7 +552,8 @@ def cross_stream(ctx):
             check_request(ctx, c)
         return
     chunks = [cases[i::48] for i in range(48)]
-    for chunk, res in zip(chunks, common.parallel_map(_cross_worker, chunks)):
+    for chunk, (res, hits) in zip(chunks, common.parallel_map(_cross_worker, chunks)):
+        _merge_hits(hits)
         for c, obs in zip(chunk, res):
             check_request(ctx, c, obs)
 
@@ -821,6 +836,7 @@ def unit_line(desc):
 def run(ctx):
     app.setup()
     _ensure_codec()
+    cov = covmod.start()
     try:
         # known findings first: each witness must still reproduce with exactly its signature
         for e in ctx.known:
@@ -837,7 +853,9 @@ def run(ctx):
         cross_stream(ctx)
         request_stream(ctx, ctx.budget(6000, 400000))
     finally:
+        covmod.stop()
         app.teardown()
+    cov.report(ctx)
 
 
 def search(ctx, around=None):
